@@ -132,10 +132,13 @@ class MDiagram:
 
 
 def make_cfg(rng: random.Random) -> dict:
+    import os
+
+    deep = os.environ.get("GEOSIM_TIER") == "thorough"
     return {
         "profile": "c05",
-        "n_steps": rng.choice([6, 10, 16, 24, 32]),
-        "n_clients": rng.choice([1, 2, 2, 3, 4]),
+        "n_steps": rng.choice([6, 10, 16, 24, 32, 48, 64] if deep else [6, 10, 16, 24, 32]),
+        "n_clients": rng.choice([1, 2, 2, 3, 4, 6] if deep else [1, 2, 2, 3, 4]),
         "main_n": rng.choice([2, 3, 3, 4]),
         "p_legal": rng.choice([0.7, 0.85, 0.95]),
         "p_complex": rng.choice([0.0, 0.0, 0.2]),
